@@ -24,7 +24,38 @@ import (
 type CLICase struct {
 	A      []string `json:"a"`
 	B      []string `json:"b"`
-	Source string   `json:"source"` // hcl | db
+	Source string   `json:"source"` // hcl | db | hcldir
+}
+
+// WriteHCLDir spreads an HCL document over a directory the way projects keep it: the schema block and
+// the first table in a_first.hcl, the other tables in z_rest.hcl, and between them (in name order) a
+// nested directory, which the documentation says is not read (its table must not appear anywhere).
+func WriteHCLDir(dir, doc string) error {
+	parts := strings.Split(doc, "\ntable ")
+	first, rest := parts[0], ""
+	if len(parts) > 1 {
+		first += "\ntable " + parts[1]
+	}
+	for _, p := range parts[min(2, len(parts)):] {
+		rest += "table " + p + "\n"
+	}
+	if err := os.MkdirAll(dir+"/m_nested", 0o755); err != nil {
+		return err
+	}
+	files := map[string]string{
+		"a_first.hcl":           first + "\n",
+		"m_nested/archived.hcl": "table \"zz_archived\" {\n  schema = schema.main\n  column \"id\" {\n    null = false\n    type = integer\n  }\n}\n",
+		"z_rest.hcl":            rest,
+	}
+	for n, c := range files {
+		if n == "z_rest.hcl" && rest == "" {
+			continue
+		}
+		if err := os.WriteFile(dir+"/"+n, []byte(c), 0o644); err != nil {
+			return err
+		}
+	}
+	return nil
 }
 
 func dumpFile(ctx context.Context, w *clih.Work, name string) (sqliteh.Catalog, error) {
@@ -59,6 +90,12 @@ func evalCLI(ctx context.Context, c CLICase) (problems []string, skipped string)
 	if c.Source == "db" {
 		to = w.URL("b.sqlite")
 	}
+	if c.Source == "hcldir" {
+		if err := WriteHCLDir(w.Path("bdir"), B.HCL()); err != nil {
+			return []string{"harness: " + err.Error()}, ""
+		}
+		to = "file://" + w.Path("bdir")
+	}
 	ap := w.Run(nil, "schema", "apply", "--url", w.URL("a.sqlite"), "--to", to, "--auto-approve")
 	if ap.Exit != 0 {
 		bad("`schema apply` failed: %s", ap)
@@ -88,6 +125,11 @@ func cliCases(tier string) []CLICase {
 	add := func(a, b squ.State) {
 		for _, src := range []string{"hcl", "db"} {
 			cs = append(cs, CLICase{a.Names(), b.Names(), src})
+		}
+		// the desired state as a directory of HCL files: for the pairs whose desired state has a table
+		// beyond the first one worth losing (every state has: the skeleton holds three tables).
+		if len(a) == 0 || len(b) == 0 {
+			cs = append(cs, CLICase{a.Names(), b.Names(), "hcldir"})
 		}
 	}
 	if tier == "thorough" {
@@ -140,7 +182,7 @@ func runCLI(ctx context.Context, r *report.Run) int {
 			if A, B := stateOf(c.A).Build(), stateOf(c.B).Build(); (A.HasColumn("t", "q") || B.HasColumn("t", "q")) && squ.OnlyAboutColumn(res[i].p, "q") {
 				key = apostropheKey
 			}
-			if c.Source == "hcl" && hasCheck(stateOf(c.B).Build(), "ck_bs") {
+			if (c.Source == "hcl" || c.Source == "hcldir") && hasCheck(stateOf(c.B).Build(), "ck_bs") {
 				// the second diff re-plans the check (see backslashKey); nothing else may be wrong.
 				all := true
 				for _, p := range res[i].p {
